@@ -22,6 +22,31 @@ type Style struct {
 	BlockAnnot   int  // 1/BlockAnnot chance to write an annotation as /* */
 	BodyBorders  int  // 1/BodyBorders chance to put a multi-line body inside body borders ( … )
 	SchemaInline bool // compact one-line schemas where possible
+
+	// Script, if set, answers every rewriting decision by its index (single-rewriting enumeration);
+	// Variant selects the flavour of the rewriting (which comment, which indentation…).
+	Script  func(i int) bool
+	Variant int
+	ni      int
+}
+
+// ScriptedStyle consults script at every eligible position.
+func ScriptedStyle(script func(i int) bool, variant int) *Style {
+	return &Style{Script: script, Variant: variant, IndentUnit: "  ", Newline: "\n", Comments: 1, TrailingWS: true,
+		Parens: 1, QuoteParams: 1, ParenDesc: 1, BlockAnnot: 1, BodyBorders: 1, RandomIndent: true}
+}
+
+// Decisions returns how many decisions the last rendering consulted.
+func (s *Style) Decisions() int { return s.ni }
+
+func (s *Style) pick(n int) int {
+	if s == nil || n <= 0 {
+		return 0
+	}
+	if s.R == nil {
+		return s.Variant % n
+	}
+	return s.R.Intn(n)
 }
 
 func RandomStyle(r *xrand.Rand) *Style {
@@ -40,7 +65,14 @@ func RandomStyle(r *xrand.Rand) *Style {
 }
 
 func (s *Style) chance(den int) bool {
-	if s == nil || s.R == nil || den <= 0 {
+	if s == nil || den <= 0 {
+		return false
+	}
+	if s.Script != nil {
+		s.ni++
+		return s.Script(s.ni - 1)
+	}
+	if s.R == nil {
 		return false
 	}
 	return s.R.Intn(den) == 0
@@ -74,6 +106,12 @@ func (rd *renderer) indent(level int) string {
 	if st == nil {
 		return strings.Repeat("  ", level)
 	}
+	if st.Script != nil {
+		if st.chance(1) {
+			return strings.Repeat([]string{" ", "\t", "   "}[st.pick(3)], (st.Variant/3)%4)
+		}
+		return strings.Repeat(st.IndentUnit, level)
+	}
 	if st.RandomIndent && st.R != nil {
 		return strings.Repeat([]string{" ", "\t", "  "}[st.R.Intn(3)], st.R.Intn(5))
 	}
@@ -85,21 +123,21 @@ func (rd *renderer) nl() string { return "\n" } // converted at the end
 // filler emits optional comments / blank lines between complete directives.
 func (rd *renderer) filler(level int) {
 	st := rd.st
-	if st == nil || st.R == nil || st.Comments == 0 || rd.afterText {
+	if st == nil || st.Comments == 0 || rd.afterText || (st.R == nil && st.Script == nil) {
 		return
 	}
-	for st.R.Intn(st.Comments) == 0 {
-		switch st.R.Intn(4) {
+	for st.chance(st.Comments) {
+		switch st.pick(4) {
 		case 0:
 			rd.sb.WriteString("\n")
 		case 1:
-			rd.sb.WriteString(rd.indent(level) + "# a comment\n")
+			rd.sb.WriteString(strings.Repeat(" ", level) + "# a comment\n")
 		case 2:
-			rd.sb.WriteString(rd.indent(level) + "### block\n comment ###\n")
+			rd.sb.WriteString(strings.Repeat(" ", level) + "### block\n comment ###\n")
 		default:
 			rd.sb.WriteString("   \t\n")
 		}
-		if st.R.Intn(2) == 0 {
+		if st.Script != nil || st.pick(2) == 0 {
 			break
 		}
 	}
@@ -107,12 +145,10 @@ func (rd *renderer) filler(level int) {
 
 func (rd *renderer) eol(allowComment bool) {
 	st := rd.st
-	if st != nil && st.R != nil {
-		if st.TrailingWS && st.R.Intn(2) == 0 {
-			rd.sb.WriteString([]string{" ", "  ", "\t"}[st.R.Intn(3)])
-		}
-		_ = allowComment // comments at the end of directive lines are not among the rewritings of C05: never emitted
+	if st != nil && st.TrailingWS && st.chance(2) {
+		rd.sb.WriteString([]string{" ", "  ", "\t", " \t", "\t "}[st.pick(5)])
 	}
+	_ = allowComment // comments at the end of directive lines are not among the rewritings of C05: never emitted
 	rd.sb.WriteString("\n")
 }
 
@@ -146,9 +182,9 @@ func (rd *renderer) annot(a string) string {
 		return ""
 	}
 	if rd.st != nil && rd.st.chance(rd.st.BlockAnnot) {
-		return " /* " + a + " */"
+		return rd.sep() + "/* " + a + " */"
 	}
-	return " // " + a
+	return rd.sep() + "// " + a
 }
 
 // directive writes "<indent><keyword> <params><annotation>" and returns the keyword offset.
@@ -158,12 +194,21 @@ func (rd *renderer) directive(level int, keyword string, params []string, annota
 	begin := rd.sb.Len()
 	rd.sb.WriteString(keyword)
 	for _, p := range params {
-		rd.sb.WriteString(" " + p)
+		rd.sb.WriteString(rd.sep() + p)
 	}
 	rd.sb.WriteString(rd.annot(annotation))
 	rd.eol(annotation == "" || true)
 	rd.afterText = false
 	return begin
+}
+
+// sep is the blank run between a keyword and a parameter or between parameters.
+func (rd *renderer) sep() string {
+	st := rd.st
+	if st != nil && st.TrailingWS && st.chance(3) {
+		return []string{"  ", "\t", " \t", "\t ", "   "}[st.pick(5)]
+	}
+	return " "
 }
 
 func (rd *renderer) open(level int) {
